@@ -54,7 +54,7 @@ def gen_sum_range(g):
     body = [s for s in fS.body if not (isinstance(s, ast.Expr) and isinstance(s.value, ast.Constant))]
     ifs = [s for s in body if isinstance(s, ast.If)]
     step_guard = [s for s in ifs if "step" in ast.unparse(s.test) and "ast.Constant(value=1)" in ast.unparse(s.test) and isinstance(s.test, ast.UnaryOp)]
-    g.oblige("table", "only-for-unit-steps", [], z3.BoolVal(len(step_guard) == 1 and ast.unparse(step_guard[0].body[0]) == "return rng"), fS.lineno)
+    g.oblige_text("table", "only-for-unit-steps", len(step_guard) == 1 and ast.unparse(step_guard[0].body[0]) == "return rng", fS.lineno)
     special = [s for s in ifs if s not in step_guard]
     a, b = z3.Reals("a b")
     ai, bi, v = z3.Ints("ai bi v")
